@@ -8,6 +8,7 @@ mod c06;
 mod c07;
 mod c10;
 mod c13;
+mod c15;
 mod c16;
 mod c17;
 mod c18;
@@ -30,6 +31,7 @@ fn main() {
         "c07" => c07::main(&args),
         "c10" => c10::main(&args),
         "c13" => c13::main(&args),
+        "c15" => c15::main(&args),
         "c16" => c16::main(&args),
         "c17" => c17::main(&args),
         "c18" => c18::main(&args),
